@@ -139,3 +139,234 @@ def groups(tier):
     gs.append(Group("null[tolerance contract]", C16.make_null_harness(), ["Geometry3D.utils.solver:null"], stubs=[(C16.T_GET_EPS, C16.stub_get_eps)],
                     expect_hits=["get_eps"], world="SCALAR", timeout_s=60))
     return gs
+
+
+# ---------------------------------------------------------------------------
+# no stale copy of the tolerance is read anywhere: the import-time copies are poisoned
+# ---------------------------------------------------------------------------
+
+class StaleRead(Exception):
+    pass
+
+
+class Poison(object):
+    """stands in for the star-imported copies FLOAT_EPS / SIG_FIGURES in the geometry modules: any use raises"""
+
+    def __init__(self, name):
+        self._name = name
+
+    def _boom(self, *a, **k):
+        raise StaleRead("a stale import-time copy of %s was used" % self._name)
+
+    __lt__ = __le__ = __gt__ = __ge__ = __add__ = __radd__ = __sub__ = __rsub__ = __mul__ = __rmul__ = __truediv__ = __rtruediv__ = __neg__ = __abs__ = _boom
+    __index__ = __int__ = __float__ = __round__ = __pow__ = __rpow__ = __bool__ = _boom
+
+    def __repr__(self):
+        return "<poisoned %s>" % self._name
+
+
+def h_no_stale_reads(vc):
+    """every public query on every type runs with the import-time copies poisoned; the live values stay readable through the getters"""
+    import importlib
+    import sys
+    g = C.G()
+    from g3dvc import oracle as O
+    from g3dvc import catalogue as K
+    saved = []
+    mods = [m for n, m in sys.modules.items() if m is not None and n.startswith("Geometry3D.") and n != "Geometry3D.utils.constant"] + [sys.modules["Geometry3D"]]
+    try:
+        for m in mods:
+            for nm in ("FLOAT_EPS", "SIG_FIGURES"):
+                if nm in vars(m):
+                    saved.append((m, nm, vars(m)[nm]))
+                    setattr(m, nm, Poison(nm))
+        vc.ensure("the import-time copies exist and are poisoned (non-vacuous)", len(saved) >= 4)
+        rng = K.make_rng(19)
+        pool = []
+        for kind in ("Point", "Line", "HalfLine", "Segment", "Plane"):
+            for o in K.flat_objects(kind, rng, 2):
+                R, t, k = K.random_pose(rng)
+                pool.append(O.to_lib(K.transform(o, R, t, k), "float"))
+        pool.append(g.Plane(g.Point(1, 2, 3), g.Vector(0, 0, 1)))
+        pool.append(g.Plane(g.Point(1, 2, 3), g.Vector(0, -3, 4)))
+        pool.append(g.Line(g.Point(1, 2, 3), g.Vector(0, 0, -2)))
+        pool += [O.to_lib(pg, "float") for pg in K.polygons(rng, 2)] + [O.to_lib(ph, "float") for ph in K.polyhedra(rng, 2)]
+        pool.append(g.Vector(1, -2, 2))
+        stale = []
+        n = 0
+        queries = [("hash", lambda a, b: hash(a)), ("==", lambda a, b: a == b), ("in", lambda a, b: a in b), ("intersection", lambda a, b: g.intersection(a, b)),
+                   ("distance", lambda a, b: g.distance(a, b)), ("angle", lambda a, b: g.angle(a, b)), ("parallel", lambda a, b: g.parallel(a, b)), ("orthogonal", lambda a, b: g.orthogonal(a, b)),
+                   ("move", lambda a, b: __import__("copy").deepcopy(a).move(g.Vector(1, 2, 3))), ("neg", lambda a, b: -a), ("measures", lambda a, b: [getattr(a, m)() for m in ("length", "area", "volume") if hasattr(a, m)]),
+                   ("hash_with_normal", lambda a, b: a.hash_with_normal()), ("parametric", lambda a, b: a.parametric()), ("general_form", lambda a, b: a.general_form())]
+        for qn, q in queries:
+            for a in pool:
+                for b in pool:
+                    n += 1
+                    try:
+                        q(a, b)
+                    except StaleRead as e:
+                        stale.append("%s(%s, %s): %s" % (qn, type(a).__name__, type(b).__name__, e))
+                    except Exception:
+                        pass  # unsupported pairs raise; only stale reads matter here
+        for cons in (lambda: g.Circle(g.Point(0, 0, 0), g.Vector(1, 2, 2), 2, 6), lambda: g.Cylinder(g.Point(0, 0, 0), 1, g.Vector(0, 0, 2), 5), lambda: g.Sphere(g.Point(0, 0, 0), 1, 5, 2),
+                     lambda: g.Parallelepiped(g.Point(0, 0, 0), g.Vector(1, 0, 0), g.Vector(0, 2, 0), g.Vector(1, 1, 3)), lambda: g.solve([[1, 2, 3], [0, 1e-12, 1]])):
+            n += 1
+            try:
+                cons()
+            except StaleRead as e:
+                stale.append("builder: %s" % e)
+            except Exception:
+                pass
+        vc.ensure("queries exercised", n > 1000)
+        vc.ensure("no query, constructor or hash reads an import-time copy of the tolerance (all reads go through get_eps / get_sig_figures)", not stale)
+        for s_ in sorted(set(stale))[:5]:
+            vc.note(s_)
+    finally:
+        for m, nm, old in saved:
+            setattr(m, nm, old)
+
+
+_groups_core = groups
+
+
+def groups(tier):
+    return _groups_core(tier) + [Group("no stale copy of the tolerance is read[import-time copies poisoned, all queries]", h_no_stale_reads,
+                                       ["Geometry3D.geometry.*", "Geometry3D.calc.*", "Geometry3D.utils.vector", "Geometry3D.utils.solver"], world="CONFIG", timeout_s=600, patches=False)]
+
+
+# ---------------------------------------------------------------------------
+# bounded stand-in: perturbed objects under changing configurations, objects reused across the changes
+# ---------------------------------------------------------------------------
+
+def bounded_configurations(seed):
+    import copy
+    import random
+    from g3dvc.engine import load_repo
+    g = load_repo()
+    P, V = g.Point, g.Vector
+    rng = random.Random(seed + 19)
+    ev = 0
+    classes = set()
+    failures = []
+    samples = []
+
+    def fail(klass, what, case):
+        if len(failures) < 8 and klass not in [f["class"] for f in failures]:
+            failures.append({"class": klass, "what": what, "case": case})
+
+    # catalogue objects: coordinates multiples of 1/8, frames with rational unit vectors (axis and Pythagorean)
+    frames = [((1, 0, 0), (0, 1, 0), (0, 0, 1)), ((1 / 3, 2 / 3, 2 / 3), (2 / 3, 1 / 3, -2 / 3), (2 / 3, -2 / 3, 1 / 3)), ((2 / 7, 3 / 7, 6 / 7), (3 / 7, -6 / 7, 2 / 7), (6 / 7, 2 / 7, -3 / 7))]
+
+    def make(kind, fr, d):
+        """object of the kind in frame fr with its first defining coordinate perturbed by d"""
+        e1, e2, e3 = fr
+        o = (0.5, -1.25, 2.0)
+        pt = lambda a, b, c, dx=0.0: P(o[0] + a * e1[0] + b * e2[0] + c * e3[0] + dx, o[1] + a * e1[1] + b * e2[1] + c * e3[1], o[2] + a * e1[2] + b * e2[2] + c * e3[2])
+        if kind == "Point":
+            return pt(1, 2, 0, d)
+        if kind == "Vector":
+            return V(3 * e1[0] + d, 3 * e1[1], 3 * e1[2])
+        if kind == "Line":
+            return g.Line(pt(1, 2, 0, d), V(*[3 * c for c in e1]))
+        if kind == "Plane":
+            return g.Plane(pt(1, 2, 0, d), V(*e3))
+        if kind == "Segment":
+            return g.Segment(pt(0, 0, 0, d), pt(3, 0, 0))
+        if kind == "HalfLine":
+            return g.HalfLine(pt(0, 0, 0, d), V(*[3 * c for c in e1]))
+        if kind == "ConvexPolygon":
+            return g.ConvexPolygon((pt(0, 0, 0, d), pt(3, 0, 0), pt(3, 2, 0), pt(0, 2, 0)))
+        if kind == "ConvexPolyhedron":
+            sq = lambda c, dd=0.0: g.ConvexPolygon((pt(0, 0, c, dd), pt(3, 0, c), pt(3, 2, c), pt(0, 2, c)))
+            side = lambda a1, b1, a2, b2: g.ConvexPolygon((pt(a1, b1, 0, d if (a1, b1) == (0, 0) else 0.0), pt(a2, b2, 0, d if (a2, b2) == (0, 0) else 0.0), pt(a2, b2, 1), pt(a1, b1, 1)))
+            return g.ConvexPolyhedron((sq(0, d), sq(1), side(0, 0, 3, 0), side(3, 0, 3, 2), side(3, 2, 0, 2), side(0, 2, 0, 0)))
+        raise KeyError(kind)
+
+    kinds = ["Point", "Vector", "Line", "Plane", "Segment", "HalfLine", "ConvexPolygon", "ConvexPolyhedron"]
+    settings = [10.0 ** -k for k in range(5, 13)]
+    try:
+        for fi, fr in enumerate(frames):
+            for kind in kinds:
+                base = make(kind, fr, 0.0)
+                # the same objects are reused across all configuration changes (hash / == before and after each change)
+                reused = {}
+                order = settings[:]
+                rng.shuffle(order)
+                for eps in order + [1e-10]:
+                    setter = rng.choice(("set_eps", "set_sig_figures"))
+                    if setter == "set_eps":
+                        g.set_eps(eps)
+                    else:
+                        g.set_sig_figures(round(-math.log10(eps)))
+                    near = reused.setdefault(("near", eps), make(kind, fr, eps / 1000))
+                    far = reused.setdefault(("far", eps), make(kind, fr, 4.5 * eps)) if kind in ("Point", "Vector") else None
+                    klass = "%s frame%d" % (kind, fi)
+                    ev += 1
+                    classes.add(klass)
+                    case = dict(kind=kind, frame=fi, eps=eps, setter=setter)
+                    try:
+                        eq_near = (base == near) and (near == base)
+                        h_near = hash(base) == hash(near)
+                        eq_far = (base == far) if far is not None else False
+                        # objects built at another setting are reused here: answers must follow the CURRENT setting
+                        for (tag, e0), obj in list(reused.items()):
+                            expect = True if (tag == "near" and e0 / 1000 <= eps / 1000) else (False if (tag == "far" and 4.5 * e0 > 4 * eps and kind in ("Point", "Vector")) else None)
+                            if expect is not None and kind in ("Point", "Vector") and (base == obj) != expect:
+                                fail(klass, "object built under eps=%g compares %r with the base under eps=%g (expected %r)" % (e0, base == obj, eps, expect), case)
+                    except Exception as e:
+                        fail(klass, "== / hash raised %r" % (e,), case)
+                        continue
+                    if not eq_near:
+                        fail(klass, "objects differing by eps/1000 do not compare equal", case)
+                    elif not h_near:
+                        fail(klass, "objects differing by eps/1000 compare equal but hash differently", case)
+                    if kind in ("Point", "Vector") and eq_far:
+                        fail(klass, "%ss differing by 4.5 eps compare equal" % kind, case)
+                    if kind not in ("Point", "Vector"):
+                        try:
+                            if kind in ("Line", "Plane", "Segment", "HalfLine"):
+                                pts = {"Line": lambda: [P(*[near.sv[i] for i in range(3)])], "Plane": lambda: [near.p], "Segment": lambda: [near.start_point, near.end_point],
+                                       "HalfLine": lambda: [near.point]}[kind]()
+                                if not all(p in base for p in pts):
+                                    fail(klass, "the defining points of the eps/1000-perturbed object are not contained in the original", case)
+                            inter = g.intersection(base, near)
+                            if inter is None or type(inter) is not type(base):
+                                fail(klass, "eps/1000-perturbed objects do not intersect as coincident (got %s)" % type(inter).__name__, case)
+                        except Exception as e:
+                            fail(klass, "membership / intersection of eps/1000-perturbed objects raised %r" % (e,), case)
+                    if len(samples) < 2:
+                        samples.append(case)
+                # restoring the default restores the default behaviour on the reused objects
+                g.set_eps()
+                ev += 1
+                classes.add("%s restore" % kind)
+                near5, near10 = reused[("near", 1e-5)], reused[("near", 1e-10)]
+                try:
+                    if kind in ("Point", "Vector"):
+                        if (base == near5) or not (base == near10):
+                            fail("%s restore" % kind, "after restoring eps=1e-10: 1e-8-perturbed compares %r (expected False), 1e-13-perturbed compares %r (expected True)" % (base == near5, base == near10), dict(kind=kind, frame=fi))
+                    elif not (base == near10 and hash(base) == hash(near10)):
+                        fail("%s restore" % kind, "after restoring eps=1e-10 the 1e-13-perturbed object no longer compares / hashes equal", dict(kind=kind, frame=fi))
+                    if kind in ("ConvexPolygon", "ConvexPolyhedron", "Line", "Plane") and (base == near5) and hash(base) != hash(near5):
+                        fail("%s restore" % kind, "after restoring eps=1e-10 a reused pair compares equal but hashes differently", dict(kind=kind, frame=fi))
+                    if kind == "ConvexPolygon":
+                        try:
+                            fresh_pair = make(kind, fr, 1e-8)
+                        except ValueError:
+                            fresh_pair = None  # not constructible at the restored tolerance (vertex off the plane by more than eps)
+                        if fresh_pair is not None and (base == near5) != (base == fresh_pair):
+                            fail("%s restore" % kind, "a pair reused across configuration changes compares %r, a fresh pair %r" % (base == near5, base == fresh_pair), dict(kind=kind, frame=fi))
+                except Exception as e:
+                    fail("%s restore" % kind, "raised %r" % (e,), dict(kind=kind, frame=fi))
+    finally:
+        g.set_eps()
+    return dict(evaluations=ev, classes=sorted(classes), failures=failures, samples=samples)
+
+
+def bounded(tier, seed):
+    return [("perturbed catalogue objects under changing configurations (objects reused across the changes)", bounded_configurations, (seed,), 3000)]
+
+
+def replay_case(case):
+    r = bounded_configurations(0)
+    return dict(fails=bool(r["failures"]), observed=[f["what"] for f in r["failures"][:3]])
